@@ -29,6 +29,8 @@ pub const VOCAB: &[&str] = &[
     "a", "bb", "ccc", "word", "x", "longerword", "co-op", "a-b", "x--y", "\u{65e5}\u{672c}",
     "\u{1f602}", "caf\u{e9}", "e\u{301}", "a/b", "1+1", "q#", "(", ")", "!", "end.", "a>b", "n*m",
     "\u{a0}", "\u{200b}z", "\x1b[31mred\x1b[0m", "tab\there", "42", "_",
+    // words may END in prefix characters (only a leading one is excluded)
+    "pre-", "A-", "C++", "and/", "x*", "q>", "n#", "read/write", "1,5",
 ];
 
 pub const PREFIX_INDENTS: &[&str] = &[
